@@ -43,6 +43,8 @@ NEED_OUTCOMES = ["map.Insert:true", "map.Insert:false", "map.Get:hit", "map.Get:
                  "cont.Add:emptyName", "cont.Replace:nil", "cont.Get:nil", "cont.Get:invalidKey", "flag.Set:true", "flag.Set:false",
                  "sched.exec:repriced", "sched.exec:overlaps-reprice"]
 PRICED = ["SaveKeyValue", "ESDTNFTCreate", "ESDTNFTAddURI", "ESDTNFTUpdateAttributes", "ESDTNFTTransfer", "MultiESDTNFTTransfer"]
+# the other nine functions whose price a schedule change rewrites under mutExecution (base cost only)
+BASE_ONLY = ["ESDTTransfer", "ESDTLocalMint", "ESDTLocalBurn", "ESDTNFTAddQuantity", "ESDTNFTBurn", "ESDTBurn", "ChangeOwnerAddress", "ClaimDeveloperRewards", "SetUserName"]
 
 
 # ------------------------------------------------------------------------------------------------ trace helpers
@@ -274,14 +276,28 @@ def toy_rounds():
     return R, expect
 
 
-def self_check(run, recorded):
-    """The checker must accept / reject hand-made histories with known verdicts, and reject a recorded round of the real
-    code after one return value was altered / two events were swapped (binding). Any disagreement is Infra."""
+def self_check_toys(run):
+    """The checker must accept / reject hand-made histories with known verdicts (run before anything recorded is judged)."""
     R, expect = toy_rounds()
-    lines = build_trace(R)[:-1]
-    n = len(R)
-    # binding on recorded rounds: (a) final counter Get off by 1000, (b) the last two events of a map round swapped (return before its call)
-    extra = []
+    lines = build_trace(R)
+    acc, finished, hw, o = lin_check(run, "selfcheck-toys", lines, skip=True, timeout=300)
+    if not finished:
+        raise Infra("self-check of LinTrace did not complete:\n" + tail_errors(o))
+    got = [(i + 1) in acc for i in range(len(expect))]
+    if got != expect:
+        raise Infra("self-check of LinTrace: hand-made histories %s were judged wrongly" % [i + 1 for i in range(len(expect)) if got[i] != expect[i]])
+    # the same verdicts one history at a time without the skip action (high-water mark + POSTCONDITION), on a rejected and an accepted one
+    rs = list(split_rounds(lines))
+    for i in (expect.index(False), expect.index(True)):
+        acc1, fin1, hw1, o1 = lin_check(run, "selfcheck-single", concat([rs[i]]), skip=False, timeout=300)
+        if not fin1 or (hw1[0] == hw1[1] + 1) != expect[i]:
+            raise Infra("self-check of LinTrace (single history, POSTCONDITION): history %d judged wrongly" % (i + 1))
+    return len(expect), expect.count(False)
+
+
+def self_check_recorded(run, recorded):
+    """Binding: a recorded round of the real code is accepted as recorded and rejected after one return value was altered /
+    two events were swapped. Any disagreement is Infra."""
     ctr = next((ls for ls in recorded.values() if ls[0]["kind"] == "counter" and not any(d["e"] == "race" for d in ls)), None)
     mp = next((ls for ls in recorded.values() if ls[0]["kind"] == "map" and not any(d["e"] == "race" for d in ls)), None)
     if ctr is None or mp is None:
@@ -289,20 +305,17 @@ def self_check(run, recorded):
     good = renumber(ctr)
     bad = [dict(d) for d in good]
     fin = max(i for i, d in enumerate(bad) if d["e"] == "ret" and d["g"] == 0 and bad[i - 1].get("op") == "Get")
-    bad[fin]["r"] += 1000
+    bad[fin]["r"] += 1000                       # the final Get after the join, off by 1000
     sw = [dict(d) for d in renumber(mp)]
-    sw[-1], sw[-2] = sw[-2], sw[-1]
-    all_lines = concat([rl for rl in split_rounds(lines)] + [good, bad, renumber(mp), sw])
-    expect = expect + [True, False, True, False]
-    acc, finished, hw, o = lin_check(run, "selfcheck", all_lines, skip=True, timeout=300)
+    sw[-1], sw[-2] = sw[-2], sw[-1]             # the last return before its call
+    expect = [True, False, True, False]
+    acc, finished, hw, o = lin_check(run, "selfcheck-recorded", concat([good, bad, renumber(mp), sw]), skip=True, timeout=300)
     if not finished:
         raise Infra("self-check of LinTrace did not complete:\n" + tail_errors(o))
-    got = [(i + 1) in acc for i in range(len(expect))]
+    got = [(i + 1) in acc for i in range(4)]
     if got != expect:
-        wrong = [i + 1 for i in range(len(expect)) if got[i] != expect[i]]
-        raise Infra("self-check of LinTrace: histories %s were judged wrongly (toy histories 1..%d, then recorded/corrupted pairs)" % (wrong, n))
-    run.cov["counters"]["selfcheck_histories"] = len(expect)
-    run.cov["counters"]["selfcheck_rejected_as_required"] = expect.count(False)
+        raise Infra("self-check of LinTrace on recorded rounds (as recorded / corrupted): verdicts %s, expected %s" % (got, expect))
+    return 4, 2
 
 
 def split_rounds(lines):
@@ -353,6 +366,18 @@ def drive(run, exe, race, seed, rounds, bulk, bulkreps, tag, kinds=KINDS, bulkg=
     if p.returncode == 66 and not res["stats"].get("races"):
         res["late_race"] = res["racelog"] or "exit status 66 (race detector) without a report in the log"
     return res
+
+
+def race_sites(report):
+    """The two conflicting accesses of the first race report: 'Write at ... by goroutine N:' is followed by the innermost frame."""
+    out = []
+    lines = report.splitlines()
+    for i, l in enumerate(lines[:-2]):
+        if re.match(r"^(Previous )?(atomic )?(read|write) at 0x", l.strip(), re.I):
+            out.append("%s %s (%s)" % (l.strip().split(" at ")[0].lower(), lines[i + 1].strip(), lines[i + 2].strip().split(" +")[0]))
+        if len(out) == 2:
+            break
+    return out
 
 
 def classify(ls):
@@ -407,6 +432,8 @@ def judge_chunk(run, d, tag, maxviol=6):
         if ls[0]["kind"] == "sched":
             desc["decoding"] = describe_sched(ls)[:4]
         rep = next((x.get("report") for x in ls if x["e"] == "race"), None)
+        if rep:
+            desc["race_at"] = race_sites(rep)
         run.add_violation(pred, desc, {"family": "conc", "history": single, "driver": {"args": d["args"], "race": d["race"]},
                                        "report": rep or d.get("racelog", "")[:6000], "tlc": "high-water mark %d of %d lines; the search of this round was exhaustive" % hw1})
     if len(rejected) > maxviol:
@@ -436,6 +463,7 @@ def run_c19(run):
         f_plain = ex.submit(run.build_harness)
         f_lock = ex.submit(run.model_check, "Concurrency", LOCK_CFG, "Concurrency-lock", 600)
         f_nolock = ex.submit(run.model_check, "Concurrency", NOLOCK_CFG, "Concurrency-nolock", 600, False)
+        f_toys = ex.submit(self_check_toys, run)
         exe = f_plain.result()
         f_race = ex.submit(run.build_harness, True)
         ok, o, info = f_lock.result()           # raises Infra when an invariant of the lock model fails
@@ -445,6 +473,7 @@ def run_c19(run):
         if nok or "Invariant OneSchedule is violated" not in no:
             raise Infra("non-vacuity: with NoLock = TRUE TLC did not find the mixed charge (OneSchedule was not violated):\n" + tail_errors(no))
         run.cov["counters"]["nolock_mixture_found"] = 1
+        n_self, n_rej = f_toys.result()         # Infra when the checker misjudges a hand-made history
         exe_race = f_race.result()
     run.cov["exhaustive"] = True   # of the lock-protocol model; schedule exploration on the real code is random
 
@@ -479,7 +508,11 @@ def run_c19(run):
             if run.tier == "thorough" and os.path.exists(d["trace"]) and not run.violations and j[6] not in ("p0", "r0"):
                 os.remove(d["trace"])
     if first_rounds:
-        self_check(run, first_rounds)
+        if not any(v["desc"].get("kind") in ("counter", "map") for v in run.violations):
+            a, b = self_check_recorded(run, first_rounds)
+            n_self, n_rej = n_self + a, n_rej + b
+        run.cov["counters"]["selfcheck_histories"] = n_self
+        run.cov["counters"]["selfcheck_rejected_as_required"] = n_rej
         small = sorted(first_rounds.items(), key=lambda kv: (len(kv[1]) > 14, kv[0]))
         seen = set()
         for rn, ls in small:
@@ -510,7 +543,7 @@ def run_c19(run):
             run.require(total.get(k, 0) >= 1, "operation %s never recorded" % k)
         for k in NEED_OUTCOMES:
             run.require(total.get(k, 0) >= 1, "outcome %s never recorded" % k)
-        for fn in PRICED:
+        for fn in PRICED + BASE_ONLY:
             run.require(total.get("fn." + fn, 0) >= 1, "priced function %s never executed" % fn)
         for k in ("map", "cont", "flag", "counter", "i64", "u32", "u64", "str", "sched", "bulk"):
             run.require(by_kind.get(k, 0) >= 1, "no round of kind %s" % k)
